@@ -17,7 +17,14 @@ empty value range and no value tokens, but not WHERE between the colon and the t
 empty range sits; the oracle therefore takes that one offset from the implementation's own
 answer (select-next asked from inside the name must select the value part of that
 declaration), admits it only when colon < offset <= terminator, and then demands every
-observation at every position to agree with the record completed by that offset."""
+observation at every position to agree with the record completed by that offset.
+
+The same stream writes the third way a body can end: `name:` + blanks / comments up to the closing
+brace (neither value nor `;`, EMPTY_VALUE_AT_BODY_END).  It is a declaration terminated by the end of
+the body: name and before as recorded, an empty value range admitted when colon < offset <= closing
+brace, no value tokens, after = that offset (a declaration without `;` ends with its value).  Bodies
+ending with a bare name (`a { b:c; color }`, `a { b:c; color; }`: no colon, not a declaration, not
+recorded) check that get_css_section lists declarations only."""
 import json
 import os
 
